@@ -47,8 +47,129 @@ def parseTable (l : Line) : List (List UInt8 × List UInt8) :=
 
 def rfcOracle (l : Line) : String → Option Int := fun _ => if has l "rfc" then some (int l "rfc") else none
 
+/-! ### generic JSON documents (token list `j`, see harness c12codec.go) and the x/text oracle table -/
+
+def parseF64 (s : String) : Cdc.F64 :=
+  match s.splitOn ":" with
+  | [fl, fr, nan] => { floor := fl.toInt?.getD 0, frac := fr == "1", nan := nan == "1" }
+  | _ => { floor := 0 }
+
+def dropPrefix2 (s : String) : String := String.ofList (s.toList.drop 2)
+
+mutual
+  /-- one value; `fuel` bounds the nesting + length -/
+  def parseJVal : Nat → List String → Cdc.JVal × List String
+    | 0, ts => (.null, ts)
+    | fuel + 1, t :: ts =>
+      if t == "n" then (.null, ts)
+      else if t == "t" then (.bool true, ts)
+      else if t == "f" then (.bool false, ts)
+      else if t.startsWith "d:" then (.num (parseF64 (dropPrefix2 t)), ts)
+      else if t.startsWith "s:" then (.str (dropPrefix2 t), ts)
+      else if t == "[" then let (l, r) := parseJArr fuel ts; (.arr l, r)
+      else if t == "{" then let (o, r) := parseJObj fuel ts; (.obj o, r)
+      else (.null, ts)
+    | _, [] => (.null, [])
+  def parseJArr : Nat → List String → List Cdc.JVal × List String
+    | 0, ts => ([], ts)
+    | fuel + 1, ts =>
+      match ts with
+      | [] => ([], [])
+      | t :: rest =>
+        if t == "]" then ([], rest) else
+        let (v, r) := parseJVal fuel ts
+        let (vs, r2) := parseJArr fuel r
+        (v :: vs, r2)
+  def parseJObj : Nat → List String → List (String × Cdc.JVal) × List String
+    | 0, ts => ([], ts)
+    | fuel + 1, ts =>
+      match ts with
+      | [] => ([], [])
+      | t :: rest =>
+        if t == "}" then ([], rest) else
+        let (v, r) := parseJVal fuel rest
+        let (vs, r2) := parseJObj fuel r
+        ((dropPrefix2 t, v) :: vs, r2)
+end
+
+def parseJ (l : Line) : Cdc.JVal :=
+  let toks := list l "j"
+  (parseJVal (2 * toks.length + 2) toks).1
+
+structure TagRow where
+  s : String
+  cls : String
+  tag : Cdc.Tag
+  perr : String
+  ptag : Cdc.Tag
+
+def zip7 : List String → List String → List String → List String → List String → List String → List String → List TagRow
+  | s :: ss, c :: cs, t :: ts, r :: rs, pe :: pes, pt :: pts, pr :: prs =>
+    { s := s, cls := c, tag := { s := t, root := r == "1" }, perr := pe, ptag := { s := pt, root := pr == "1" } } :: zip7 ss cs ts rs pes pts prs
+  | _, _, _, _, _, _, _ => []
+
+def tagRows (l : Line) : List TagRow :=
+  zip7 (list l "e.s") (list l "e.cls") (list l "e.tag") (list l "e.root") (list l "e.perr") (list l "e.ptag") (list l "e.proot")
+
+/-- how x/text reads the string WITHOUT canonicalisation (Tag.UnmarshalText; used for `Locale`) -/
+def rawClass (rows : List TagRow) (s : String) : C12.TagClass :=
+  match rows.find? (·.s == s) with
+  | some r => if r.cls == "valid" then .valid r.tag else if r.cls == "unknown" then .unknown else .illformed
+  | none => .illformed
+/-- how `language.Parse` reads it (canonicalising; used for `Locales`) -/
+def parseClass (rows : List TagRow) (s : String) : C12.TagClass :=
+  match rows.find? (·.s == s) with
+  | some r => if r.perr == "" then .valid r.ptag else if r.perr == "language.ValueError" then .unknown else .illformed
+  | none => .illformed
+
+def obsTag (l : Line) : Cdc.Tag := { s := str l "o.s", root := bool l "o.root" }
+def obsTags (l : Line) : List Cdc.Tag :=
+  let rec go : List String → List String → List Cdc.Tag
+    | s :: ss, r :: rs => { s := s, root := r == "1" } :: go ss rs
+    | _, _ => []
+  go (list l "o.s") (list l "o.root")
+
+def outOfLine {α} (l : Line) (v : α) : Out α :=
+  if str l "obs" == "val" then .val v else if str l "obs" == "panic" then .panic else .err
+
+def loc2Of (l : Line) : Out (Option Cdc.Tag) :=
+  let s := str l "o.loc2"
+  if s == "nil" then .val none
+  else if s.startsWith "tag:" then
+    let t := String.ofList (s.toList.drop 4)
+    .val (some { s := t, root := t == "und" })
+  else .err
+
+/-- monitor for the kinds of the generic-document part of the stream; `none` = not one of them -/
+def monitorJ (l : Line) : Option (Option String) :=
+  let doc := parseJ l
+  let rows := tagRows l
+  let flag (ok : Bool) (c : String) : Option (Option String) := some (if ok then none else some c)
+  match str l "kind" with
+  | "locale" => flag (C12.localeOK (rawClass rows) doc (outOfLine l (obsTag l))) "locale-decoding"
+  | "locales" => flag (C12.localesOK (parseClass rows) doc (outOfLine l (obsTags l))) "locales-decoding"
+  | "docrt" =>
+    let member := if bool l "has" then some doc else none
+    let dec : Option Cdc.Tag := if has l "o.s" then some (obsTag l) else none
+    let r := C12.docLocaleOK (rawClass rows) member (str l "text") (outOfLine l dec) (lookup (obj l "o.obj") "locale")
+    some (match r with
+      | some c => some c
+      | none => if str l "obs" == "val" then C12.secondDecodeOK dec (loc2Of l) else none)
+  | "jaud" => flag (C12.audienceOKJ doc (outOfLine l (list l "o.v"))) "audience-decoding"
+  | "jtime" =>
+    let tp : String → Go.R Int := fun _ => if has l "tp" then .ok (int l "tp") else .error "time"
+    flag (C12.timeOKJ tp doc (outOfLine l (int l "o.v"))) "time-decoding"
+  | "jbool" => flag (C12.boolOKJ doc (outOfLine l (bool l "o.v"))) "bool-decoding"
+  | "jspace" => flag (C12.spaceOK doc (outOfLine l (list l "o.v"))) "space-delimited-decoding"
+  | "jdisplay" => flag (C12.displayOK (str l "dtext") (outOfLine l (str l "o.v"))) "display-decoding"
+  | "unseal" => some (C12.unsealOK (bytesOf l "raw").length (outOfLine l (bytesOf l "o.plain")))
+  | _ => none
+
 def monitorLine (l : Line) : Option String :=
   if str l "obs" == "panic" then some "panic" else
+  match monitorJ l with
+  | some r => r
+  | none =>
   match str l "kind" with
   | "marshal" =>
     if str l "obs" == "decode-refused" then
@@ -63,7 +184,7 @@ def monitorLine (l : Line) : Option String :=
     | some c => some c
     | none => C12.roundTripOK (obj l "reg") (obj l "custom") (obj l "o.reg2") (obj l "o.custom2")
   | "claimsdoc" =>
-    C12.badMemberOK (obj l "doc") (str l "bad") (if str l "obs" == "ok" then some (obj l "o.reg2") else none)
+    C12.badMemberLosslessOK (obj l "doc") (str l "bad") ["role"] (if str l "obs" == "ok" then some (obj l "o.reg2") else none)
   | "aud" =>
     let o : Out (List String) := if str l "obs" == "val" then .val (list l "o.v") else .err
     if C12.audienceOK (parseDoc l) o then none else some "audience-decoding"
@@ -110,7 +231,7 @@ def modelLine (l : Line) : String × Bool :=
     let enc := String.ofList (B64.encode m)
     ("sealed", str l "obs" == "ok" && m == raw && enc == str l "o.enc"
       && Cfb.unsealBytes E 16 raw == some (bytesOf l "plain"))
-  | _ => ("?", false)
+  | k => if (monitorJ l).isSome then ("-", true) else ("?" ++ k, false)
 
 def step (l : Line) : String :=
   let (m, agree) := modelLine l
